@@ -5,7 +5,7 @@
 use crate::tape::Tape;
 use crate::wire::Enc;
 
-pub const MAX_RECORD_LEN: usize = (1 << 14) + 256;
+pub const RECORD_CAP: usize = (1 << 14) + 256;
 
 // ---------------------------------------------------------------------------------------------
 // Handshake messages
@@ -715,10 +715,10 @@ pub fn gen_record_of(t: &mut Tape, kind: usize) -> MRecord {
             MRecord { ctype: 0x15, version, msgs, padding: vec![] }
         }
         2 => {
-            let msgs = gen_hs_list(t, 6, MAX_RECORD_LEN).into_iter().map(MMsg::Hs).collect();
+            let msgs = gen_hs_list(t, 6, RECORD_CAP).into_iter().map(MMsg::Hs).collect();
             MRecord { ctype: 0x16, version, msgs, padding: vec![] }
         }
-        3 => MRecord { ctype: 0x17, version, msgs: vec![MMsg::AppData(t.blob(MAX_RECORD_LEN))], padding: vec![] },
+        3 => MRecord { ctype: 0x17, version, msgs: vec![MMsg::AppData(t.blob(RECORD_CAP))], padding: vec![] },
         _ => {
             let payload = t.blob(16000);
             let padding = t.small_blob(64);
@@ -944,7 +944,7 @@ pub fn gen_dtls_record(t: &mut Tape) -> MDtlsRecord {
         _ => {
             let n = 1 + t.small(3);
             let mut msgs = Vec::new();
-            let mut left = MAX_RECORD_LEN;
+            let mut left = RECORD_CAP;
             for _ in 0..n {
                 let b = if t.chance(30) { left.saturating_sub(800) } else { left.saturating_sub(800).min(500) };
                 let h = gen_dtls_hs(t, b);
